@@ -600,7 +600,7 @@ func (s *State) oblige(kind, name string, props []string, goal, where, specSrc s
 	if s.dead {
 		return
 	}
-	if kind == "post" || kind == "invariant-preserved" || kind == "invariant-entry" || kind == "step" {
+	if kind == "post" || kind == "invariant-preserved" || kind == "invariant-entry" || kind == "step" || kind == "call-pre" || kind == "atcall" {
 		if parts := splitGoal(goal); len(parts) > 1 && len(parts) <= 12 {
 			for i, p := range parts {
 				s.oblige1(kind, fmt.Sprintf("%s.%d", name, i+1), props, p, where, specSrc)
